@@ -1005,6 +1005,34 @@ def rule_published(ctx, sites):
     ctx.anchor(n >= 3, f"constructions of task-owning objects in coroutines: {n} < 3")
 
 
+def rule_time_units(ctx, R="time-units"):
+    from ..units import Units
+    ctx.rep.rule(R, "every bound on how long the clients wait is a number of SECONDS when it reaches the event loop or the monotonic clock, and the "
+                    "configuration it comes from is in MILLISECONDS (`*_ms`): unit inference over the whole package (names ending in _ms are "
+                    "milliseconds, `/ 1000` converts, clock reads are seconds; units flow through locals, attributes and the arguments of calls that "
+                    "resolve inside the package) finds no milliseconds value at asyncio.sleep / wait_for / wait(timeout=) / call_later / timeout(), "
+                    "none added to, subtracted from or compared with a seconds value, no attribute or parameter fed with both units, and no `*_ms` "
+                    "name fed with seconds -- a batch TTL, back-off or request timeout a thousand times too long makes stop() wait for hours")
+    u = Units(ctx.repo)
+    ctx.anchor(u.n_sinks >= 35 and u.n_flows >= 50, f"unit inference saw {u.n_sinks} seconds sinks and {u.n_flows} unit flows (floors 35 / 50)")
+    bad_fns = {}
+    for fi, node, msg, key in u.findings:
+        bad_fns.setdefault(fi.qualname, []).append((node, msg, key))
+    seen = set()
+    for fi, node, msg, key in u.findings:
+        if (fi.qualname, key) in seen:
+            continue
+        seen.add((fi.qualname, key))
+        ctx.ob(R, fi, node, False, msg, text="unit:" + key)
+    ctx.rep.extra["time_units"] = {"sinks": u.n_sinks, "flows": u.n_flows, "findings": len(u.findings)}
+    # one obligation per function that contains a seconds sink (evidence of what was examined)
+    for q in sorted(u.sink_functions):
+        fi = ctx.repo.funcs[q]
+        ctx.rep.functions.add(q)
+        if q not in bad_fns:
+            ctx.ob(R, fi, fi.node, True, "", text="sinks-fed-with-seconds")
+
+
 def run(ctx):
     rep = ctx.rep
     rep.explanation = ("C19: structural clauses of 'stop() terminates and leaves nothing running' decided on the CFGs of the shutdown "
@@ -1022,6 +1050,7 @@ def run(ctx):
     rule_after_stop(ctx)
     rule_blocked_callers(ctx)
     rule_leave(ctx)
+    rule_time_units(ctx)
     rep.nd("the numeric bound on stop() latency (timeouts are runtime values)")
     rep.nd("that flush() inside producer.stop() completes: it waits for delivery by design, bounded only by the sender's progress")
     rep.nd("a task cancelled before its first step ends with CancelledError whatever its body handles")
